@@ -61,7 +61,8 @@ class Pool:
             return [None] * n
         chunks = [list(range(i, min(i + cs, n))) for i in range(0, n, cs)]
         order = list(range(len(chunks)))
-        if len(chunks) > 1 and sym.sym_bool(f"pool_reverse_{Pool.created}", register=False):
+        from crosshair.statespace import optional_context_statespace
+        if len(chunks) > 1 and optional_context_statespace() is not None and sym.sym_bool(f"pool_reverse_{Pool.created}", register=False):
             order.reverse()
         g = getattr(func, "__globals__", None)
         snap = self._snap.get(id(g)) if g is not None else None
